@@ -1,6 +1,7 @@
-// Server-side stubs of the repository's own .proto files (the adapter crate only generates clients).
+// Server-side stubs of the service contract: the .proto files as published at the pinned commit, kept under proto/ (a service an operator
+// deployed was built from those; if the repository's copy of the schema is edited, the mock still speaks the published one).
 fn main() -> Result<(), Box<dyn std::error::Error>> {
-    let root = "/repo/passage-adapters/grpc/proto";
+    let root = format!("{}/proto", std::env::var("CARGO_MANIFEST_DIR")?);
     let files = ["adapter", "discovery", "status", "strategy"].map(|n| format!("{root}/adapter/{n}.proto"));
     for f in &files {
         println!("cargo:rerun-if-changed={f}");
@@ -9,6 +10,6 @@ fn main() -> Result<(), Box<dyn std::error::Error>> {
         .protoc_arg("--experimental_allow_proto3_optional")
         .build_server(true)
         .build_client(false)
-        .compile_protos(&files, &[root.to_string()])?;
+        .compile_protos(&files, &[root])?;
     Ok(())
 }
